@@ -276,6 +276,11 @@ def conclude(prop, mod, tier, seed, cases, results, t0, write_evidence=True):
                 json.dumps(v.get('detail'), default=repr)[:600]))
         print('   (%d violating observations in %d cases)' % (
             len(new), len({i for i, _ in new})))
+    for i in died[:3]:
+        print('   worker died / timed out on case %d: %s  %s' % (
+            i, json.dumps(cases[i], default=repr)[:300],
+            {k: str(v)[-300:] for k, v in results[i].items()
+             if k in ('timed_out', 'rc', 'stderr')}))
     floors = getattr(mod, 'FLOORS', {})
     if callable(floors):
         floors = floors(tier)
